@@ -28,7 +28,7 @@ def can_print_dur(p, r):
 
 
 def drivers(vlib):
-    impl = vlib.build_cpp("drv_chrono", ["drv_chrono.cpp"])
+    impl = vlib.build_cpp("drv_chrono", ["drv_chrono.cpp"] + vlib.repo_sources("src/msgpack/*.cpp", "src/common/*.cpp"))
     model = vlib.build_model("chrono")
     return impl, model
 
@@ -189,6 +189,16 @@ def dur_count_of(p, sg, secs, fns):
     return sg * secs * (10 ** 9 // t) + rhe(sg * fns, t)
 
 
+def wire_bytes(sec, ns):
+    """the library's MsgPack form of CBinTimestamp{sec, ns}: timestamp 32 / 64 as specified; timestamp 96 with the
+    seconds before the nanoseconds (F08, a finding of C06: the specification has the nanoseconds first)"""
+    if 0 <= sec < 2 ** 34:
+        if ns == 0 and sec < 2 ** 32:
+            return bytes([0xD6, 0xFF]) + sec.to_bytes(4, "big")
+        return bytes([0xD7, 0xFF]) + ((ns << 34) | sec).to_bytes(8, "big")
+    return bytes([0xC7, 12, 0xFF]) + (sec % 2 ** 64).to_bytes(8, "big") + ns.to_bytes(4, "big")
+
+
 # ------------------------------------------------------------------ judge
 
 def judge(line, out):
@@ -251,6 +261,14 @@ def judge(line, out):
             sec, ns = divmod(c * TICK_NS[p], 10 ** 9)
             want = "OK %d %d" % (sec, ns) if -2 ** 63 <= sec < 2 ** 63 else "EXC:out_of_range"
             return ("HOLD", "timestamp of the instant") if out == want else ("FAIL", "expected " + want)
+        if op == "ts.wire":
+            p, r, c = t[2], t[3], int(t[4])
+            sec, ns = divmod(c * TICK_NS[p], 10 ** 9)
+            if not -2 ** 63 <= sec < 2 ** 63:
+                want = "EXC:out_of_range"
+            else:
+                want = "OK %s %d" % (wire_bytes(sec, ns).hex(), c)
+            return ("HOLD", "MsgPack timestamp of the instant, read back to the value") if out == want else ("FAIL", "expected " + want)
         if op == "ts.from":
             p, r, sec, ns = t[2], t[3], int(t[4]), int(t[5])
             if not 0 <= ns <= 999999999:
@@ -381,7 +399,7 @@ def nontrivial(line, model_out):
     if not model_out.startswith("OK "):
         return True
     t = line.split(" ")
-    if t[0] in ("tp.print", "dur.print", "rt.print", "ts.to", "cast"):
+    if t[0] in ("tp.print", "dur.print", "rt.print", "ts.to", "ts.wire", "cast"):
         c = int(t[-1])
         return c < 0 or c > 2 ** 31
     if t[0] == "ts.from":
@@ -394,7 +412,7 @@ def op_class(line):
     t = line.split(" ")
     if t[0] in ("tp.print", "tp.parse", "dur.print", "dur.parse", "tp.parse16", "tp.parse32", "dur.parse16", "dur.parse32"):
         return "%s %s %s" % (t[0], t[1], t[2])
-    if t[0] in ("ts.to", "ts.from"):
+    if t[0] in ("ts.to", "ts.from", "ts.wire"):
         return "%s %s %s %s" % (t[0], t[1], t[2], t[3])
     if t[0] == "cast":
         return "cast %s %s->%s %s" % (t[1], t[2], t[3], t[4])
